@@ -390,8 +390,8 @@ func (w *l1World) newTuple(rt *rapid.T, b *mBridge) wd {
 		for _, d := range w.denoms {
 			if v, ok := b.Ledger[d]; ok && v.IsPositive() {
 				t.Denom = d
-				if v.IsUint64() && v.Uint64() < t.Amount {
-					t.Amount = v.Uint64()
+				if v.IsUint64() && (v.Uint64() < t.Amount || rapid.IntRange(0, 4).Draw(rt, "drain") == 0) {
+					t.Amount = v.Uint64() // everything the bridge holds of this token leaves with this withdrawal
 				}
 				break
 			}
@@ -522,6 +522,49 @@ func (w *l1World) opPropose(rt *rapid.T) *l1Step {
 	}
 	w.logf("propose(bridge=%d by=%s(%s) index=%d next=%d l2block=%d prev=%d leaves=%d) -> err=%v", b.ID, short(signer), sk, index, next, l2b, prev, len(o.Tuples), st.Res.Err)
 	return st
+}
+
+// bulkDenoms deposits zero amounts of n distinct L1 denoms into bridge b (each registers a token pair):
+// a bridge that knows far more than a page of tokens.
+func (w *l1World) bulkDenoms(rt *rapid.T, b *mBridge, n int) {
+	sender := w.user(rt, "bulksender")
+	for k := 0; k < n; k++ {
+		denom := fmt.Sprintf("ibc/%064X", k+1)
+		r := w.e.Deliver(ophosttypes.NewMsgInitiateTokenDeposit(sender.Str, b.ID, sender.Str, sdk.NewCoin(denom, math.ZeroInt()), nil))
+		if !r.OK() {
+			rt.Fatalf("bulk deposit %d of 0%s refused: %v\nhistory:\n%s", k, denom, r.Err, w.history())
+		}
+		b.NextSeq++
+		if l2 := ref.L2Denom(b.ID, denom); b.Pairs[l2] == "" {
+			b.Pairs[l2] = denom
+		}
+	}
+	w.logf("bulk: zero-amount deposits of %d distinct denoms into bridge %d", n, b.ID)
+}
+
+// bulkPropose lets the proposer of b submit n further outputs (one withdrawal each, L2 block numbers
+// continuing the log) without moving the clock: a bridge with far more than a page of pending outputs.
+func (w *l1World) bulkPropose(rt *rapid.T, b *mBridge, n int) {
+	for k := 0; k < n; k++ {
+		index := uint64(len(b.Outputs) + 1)
+		l2b := uint64(1)
+		if len(b.Outputs) > 0 {
+			l2b = b.Outputs[len(b.Outputs)-1].L2Block + 1
+		}
+		if l2b == 0 {
+			return // the log already ends at the largest L2 block number
+		}
+		o := buildOutput([]wd{w.newTuple(rt, b)}, 0, ref32(byte(k)))
+		msg := ophosttypes.NewMsgProposeOutput(b.Proposer, b.ID, index, l2b, append([]byte{}, o.Root[:]...))
+		r := w.e.Deliver(msg)
+		if !r.OK() {
+			rt.Fatalf("bulk proposal %d (index %d, l2 block %d) by the proposer refused: %v\nhistory:\n%s", k, index, l2b, r.Err, w.history())
+		}
+		o.Index, o.L2Block, o.At, o.Height = index, l2b, w.e.Ctx.BlockTime(), w.e.Ctx.BlockHeight()
+		b.Outputs = append(b.Outputs, o)
+		b.LastPropose, b.LastProposeOut = msg, o
+	}
+	w.logf("bulk: %d further outputs proposed on bridge %d (now %d)", n, b.ID, len(b.Outputs))
 }
 
 func (w *l1World) opDelete(rt *rapid.T) *l1Step {
